@@ -195,13 +195,12 @@ def validate_batch(rep, label, named_events, drift_only_rec=True):
     return v, bad
 
 
-def family(rep, bld, tier, judge):
+def family(rep, bld, tier, judge, cov, sim):
     """Output-context family (CodeWriter_GenFam): SAVE/RESTORE, CPU from any segment / same CPU, SEGMENT same segment,
     RORG, PHASE/DEPHASE, ALIGN reserving and filling, STRUCT blocks, BINCLUDE, macro- and REPT-generated data.
     (a) transition cover of the context graph: every statement of the family from every context, followed by a probing
         data statement, the RESTOREs owed and END;  (b) simulation mixed with CodeWriter_Gen's boundary sizes."""
-    cov = tlc.must(tlc.run("CodeWriter_GenFam", "CodeWriter_GenFam.cfg" if tier == "quick" else "CodeWriter_GenFamT.cfg",
-                           workers=1, timeout=1200, mem="6g"), "CodeWriter_GenFam")
+    cov = tlc.must(cov, "CodeWriter_GenFam")
     behs, seen = [], set()
     for tag, b in cov.printed:
         if tag == "TR" and repr(b) not in seen:
@@ -210,9 +209,7 @@ def family(rep, bld, tier, judge):
     ncover = len(behs)
     if ncover < 1000:
         raise CheckError("CodeWriter_GenFam: transition cover printed only %d behaviours" % ncover)
-    nsim = 200 if tier == "quick" else 4000
-    sim = tlc.must(tlc.run("CodeWriter_GenFam", "CodeWriter_GenFamSim.cfg", workers=4, simulate=nsim // 4, depth=14,
-                           timeout=900, mem="6g"), "CodeWriter_GenFamSim")
+    sim = tlc.must(sim, "CodeWriter_GenFamSim")
     sbehs = []
     for tag, b in sim.printed:
         if tag == "BEH" and repr(b) not in seen:
@@ -251,21 +248,25 @@ def main(tier):
     import threading
     fam_mc = {}
 
-    def run_fam_mc():
+    def run_fam_mc():      # ... and so do the two generator runs of the output-context family (used by family())
         fam_mc["r"] = tlc.run("CodeWriter_MC", "CodeWriter_MCFam.cfg" if tier == "quick" else "CodeWriter_MCFam6.cfg",
                               workers=2, timeout=2400, mem="6g", collect=False)
-    th = threading.Thread(target=run_fam_mc)
+        fam_mc["cov"] = tlc.run("CodeWriter_GenFam", "CodeWriter_GenFam.cfg" if tier == "quick" else "CodeWriter_GenFamT.cfg",
+                                workers=1, timeout=1200, mem="6g")
+        fam_mc["sim"] = tlc.run("CodeWriter_GenFam", "CodeWriter_GenFamSim.cfg", workers=2,
+                                simulate=20 if tier == "quick" else 2000, depth=14, timeout=900, mem="6g")
+    def guarded():
+        try:
+            run_fam_mc()
+        except Exception as ex:          # reported after join (infrastructure trouble, never a verdict)
+            fam_mc["err"] = ex
+    th = threading.Thread(target=guarded, daemon=True)
     th.start()
     mc = tlc.must(tlc.run("CodeWriter_MC", "CodeWriter_MC.cfg" if tier == "quick" else "CodeWriter_MC6.cfg",
                           timeout=2400, mem="8g", collect=False), "CodeWriter_MC")
-    th.join()
     if mc.violation:
         raise CheckError("the CodeWriter design violates its invariants: %s" % mc.violation[:800])
     rep.model("CodeWriter_MC", mc)
-    fmc = tlc.must(fam_mc["r"], "CodeWriter_MC(SpecFam)")
-    if fmc.violation:
-        raise CheckError("the output-context family of CodeWriter_MC violates its invariants: %s" % fmc.violation[:800])
-    rep.model("CodeWriter_MC(SpecFam)", fmc)
 
     # (G)
     nsim = 400 if tier == "quick" else 6000
@@ -331,7 +332,14 @@ def main(tier):
 
     for (b, src, nexp), res in zip(jobs, results):
         judge(b, src, res)
-    family(rep, bld, tier, judge)
+    th.join()
+    if "err" in fam_mc:
+        raise CheckError("TLC runs of the output-context family failed: %r" % fam_mc["err"])
+    fmc = tlc.must(fam_mc["r"], "CodeWriter_MC(SpecFam)")
+    if fmc.violation:
+        raise CheckError("the output-context family of CodeWriter_MC violates its invariants: %s" % fmc.violation[:800])
+    rep.model("CodeWriter_MC(SpecFam)", fmc)
+    family(rep, bld, tier, judge, fam_mc["cov"], fam_mc["sim"])
     # several sources in ONE invocation (dimension added after a seeded change that let the entry address of
     # `END <addr>` survive into the code files of the following sources): every source's code file must be the one
     # the same source gives alone - which was just compared with the image and entry the specification predicts
